@@ -57,6 +57,12 @@ CASES = [
     ("harmless: spent output looked up once more", "C01", "skepticoin/consensus.py",
      "        previous_output = unspent_transaction_outs[input.output_reference]\n\n        # bitcoin has the concept",
      "        previous_output = coinstate.unspent_transaction_outs_by_hash[at_hash][input.output_reference]\n\n        # bitcoin has the concept", 0),
+    ("harmless: balance memo emptied before a new entry", "C03", "skepticoin/balances.py",
+     "        if key not in self.cache:\n            self.cache[key] = self.public_key_balances_by_hash(key)",
+     "        if key not in self.cache:\n            self.cache.clear()\n            self.cache[key] = self.public_key_balances_by_hash(key)", 0),
+    ("balance memo returns a stale entry of another block", "C03", "skepticoin/balances.py",
+     "        if key not in self.cache:\n            self.cache[key] = self.public_key_balances_by_hash(key)\n        return self.cache[key]",
+     "        if len(self.cache) == 0:\n            self.cache[key] = self.public_key_balances_by_hash(key)\n        return self.cache.get(key) or next(iter(self.cache.values()))", 1),
     ("harmless: merkle pairs hashed via a helper variable", "C17", "skepticoin/merkletree.py",
      "            new_list.append(sha256d(chunk[0] + chunk[1]))",
      "            pair = chunk[0] + chunk[1]\n            new_list.append(sha256d(pair))", 0),
